@@ -27,13 +27,18 @@ func VerifNewCaches(backtraceLimit uint32) *VerifCaches {
 	}
 }
 
-// VerifNewReader creates the block / beat / beat2 reader of a subscriber starting at position.
+// VerifNewReader creates the block / beat / beat2 / event / transfer reader of a subscriber starting at position
+// (event and transfer readers with the match-all filter).
 func VerifNewReader(kind string, repo *chain.Repository, position thor.Bytes32, c *VerifCaches) VerifReader {
 	switch kind {
 	case "beat":
 		return newBeatReader(repo, position, c.beat)
 	case "beat2":
 		return newBeat2Reader(repo, position, c.beat2)
+	case "event":
+		return newEventReader(repo, position, &api.SubscriptionEventFilter{})
+	case "transfer":
+		return newTransferReader(repo, position, &api.SubscriptionTransferFilter{})
 	default:
 		return newBlockReader(repo, position)
 	}
